@@ -502,7 +502,7 @@ impl Allocator for Arena {
     let final_offset = match pos {
       ArenaPosition::Start(offset) => offset.max(data_offset).min(cap),
       ArenaPosition::Current(offset) => {
-        let offset = allocated as i64 + offset;
+        let offset = (allocated as i64).saturating_add(offset);
         #[allow(clippy::comparison_chain)]
         if offset > 0 {
           if offset >= (cap as i64) {
@@ -511,10 +511,8 @@ impl Allocator for Arena {
             let offset = offset as u32;
             offset.max(data_offset).min(cap)
           }
-        } else if offset < 0 {
-          data_offset
         } else {
-          return;
+          data_offset
         }
       }
       ArenaPosition::End(offset) => match cap.checked_sub(offset) {
